@@ -722,6 +722,13 @@ func (ds *AnySource) writeControlStart(config *WriteControlConfig) error {
 			return mapError{msg: fmt.Sprintf("map error: have length %v, want %v, want value calculated as (nchan %v / channelsPerPixel %v)",
 				len(config.MapInternalOnly.Pixels), ds.nchan/ds.channelsPerPixel, ds.nchan, ds.channelsPerPixel)}
 		}
+		// Pixels are looked up by channel number (counting from 1): every channel needs one.
+		for _, channelNumber := range ds.chanNumbers {
+			if channelNumber < 1 || channelNumber > len(config.MapInternalOnly.Pixels) {
+				return mapError{msg: fmt.Sprintf("map error: channel number %v has no pixel in a map of %v pixels",
+					channelNumber, len(config.MapInternalOnly.Pixels))}
+			}
+		}
 	}
 	path := ds.writingState.BasePath
 	if len(config.Path) > 0 {
